@@ -309,7 +309,527 @@ def oracle_grid_oracle(c, o):
     return None
 
 
+
+# =================================================================================================
+# SliceProjectionOp
+# =================================================================================================
+PRE_SLICE = 'From MrVerif Require Import Base.Prelude Model.SliceProj.\nFrom Coq Require Import QArith.'
+F = Fraction
+
+
+def _signed_perms():
+    out = []
+    for perm in itertools.permutations(range(3)):
+        for signs in itertools.product([1, -1], repeat=3):
+            M = [[0] * 3 for _ in range(3)]
+            for i, (pp, sg) in enumerate(zip(perm, signs)):
+                M[i][pp] = sg
+            det = (M[0][0] * (M[1][1] * M[2][2] - M[1][2] * M[2][1]) - M[0][1] * (M[1][0] * M[2][2] - M[1][2] * M[2][0])
+                   + M[0][2] * (M[1][0] * M[2][1] - M[1][1] * M[2][0]))
+            if det == 1:
+                out.append(M)
+    return out
+
+
+def _is_exact_perm(M):
+    """rotations by 0 / 120 / 180 degrees: quaternion components in {0, +-1/2, +-1}, as_matrix() is exact.
+    (trace 3, 0 or -1); the others (trace 1: 90 degrees about an axis; trace -1 with off-diagonal: 180 about a face diagonal)
+    have quaternion components sqrt(1/2) and a float matrix with entries 1 + 2e-16."""
+    tr = M[0][0] + M[1][1] + M[2][2]
+    if tr == 3 or tr == 0:
+        return True
+    return tr == -1 and all(M[i][j] == 0 for i in range(3) for j in range(3) if i != j)
+
+
+PERMS = _signed_perms()
+PERM_EXACT = [M for M in PERMS if _is_exact_perm(M)]
+PERM_INEXACT = [M for M in PERMS if not _is_exact_perm(M)]
+_c, _s = F(3, 5), F(4, 5)
+_c2, _s2 = F(5, 13), F(12, 13)
+PYTH = [[[1, 0, 0], [0, _c, -_s], [0, _s, _c]], [[_c, 0, -_s], [0, 1, 0], [_s, 0, _c]], [[_c, -_s, 0], [_s, _c, 0], [0, 0, 1]],
+        [[1, 0, 0], [0, _c2, _s2], [0, -_s2, _c2]], [[_s, 0, _c], [0, 1, 0], [-_c, 0, _s]],
+        # product of two Pythagorean rotations (tilted normal and in-plane rotation)
+        [[_c, -_s * _c, _s * _s], [_s, _c * _c, -_c * _s], [0, _s, _c]]]
+
+
+def _mat_json(M):
+    return [[[F(a).numerator, F(a).denominator] for a in row] for row in M]
+
+
+def _mat_frac(Mj):
+    return [[F(a[0], a[1]) for a in row] for row in Mj]
+
+
+def matvec(M, v):
+    return [sum(M[i][j] * v[j] for j in range(3)) for i in range(3)]
+
+
+def mat_t_vec(M, v):
+    return [sum(M[j][i] * v[j] for j in range(3)) for i in range(3)]
+
+
+def _profile_q(pj):
+    """exact profile (Fraction -> Fraction) for the rectangular kinds; float profile for the others"""
+    kind = pj['kind']
+    if kind == 'rect':
+        h = F(*pj['h'])
+        return lambda d: 1 if abs(d) <= h else 0
+    if kind == 'smoothed0':
+        w = F(*pj['fwhm'])
+        return lambda d: 1 if abs(d * 2 / w) <= 1 else 0
+    if kind == 'gauss':
+        fw = float(F(*pj['fwhm']))
+        return lambda d: math.exp(-(float(d) ** 2) / (0.36 * fw ** 2))
+    if kind == 'smoothed':
+        fr, fg = float(F(*pj['fwhm'])), float(F(*pj['fg']))
+        n = (math.log(2) ** 0.5) * fr / fg
+        return lambda d: (math.erf(n * (1 - float(d) * 2 / fr)) + math.erf(n * (1 + float(d) * 2 / fr))) / (2 * math.erf(n))
+    raise ValueError(kind)
+
+
+def _profile_impl(pj):
+    from mrpro.utils.slice_profiles import SliceGaussian, SliceSmoothedRectangular
+    kind = pj['kind']
+    if kind == 'rect':
+        h = float(F(*pj['h']))
+        return lambda x: (x.abs() <= h).float()
+    if kind == 'smoothed0':
+        return SliceSmoothedRectangular(float(F(*pj['fwhm'])), 0.0)
+    if kind == 'gauss':
+        return SliceGaussian(float(F(*pj['fwhm'])))
+    if kind == 'smoothed':
+        return SliceSmoothedRectangular(float(F(*pj['fwhm'])), float(F(*pj['fg'])))
+    raise ValueError(kind)
+
+
+def _profile_coq(pj):
+    if pj['kind'] == 'rect':
+        return f'(rect {qlit(F(*pj["h"]))})'
+    if pj['kind'] == 'smoothed0':
+        return f'(smoothed_rect0 {qlit(F(*pj["fwhm"]))})'
+    raise ValueError(pj['kind'])
+
+
+def twin_find_width(mx, prof):
+    tv = list(range(-mx, mx + 1))
+    pv = [prof(F(t)) for t in tv]
+    tot = sum(pv)
+    acc, cdf = 0, []
+    for v in pv:
+        acc = acc + v
+        cdf.append(acc / tot)
+    left = next((t for t, v in zip(tv, cdf) if v > (F(1, 100) if isinstance(v, F) else 0.01)), tv[0])
+    right = next((t for t, v in zip(tv, cdf) if v > (F(99, 100) if isinstance(v, F) else 0.99)), tv[0])
+    return max(abs(left), abs(right)) + 1
+
+
+def twin_row(shape, M, shift, w, prof, r, c):
+    """python twin of Model/SliceProj.v `row` (exact geometry in Fractions; the profile may return floats).
+    Returns (entries {pt: weight}, npos, degenerate) where degenerate says that some floor / weight>0 argument sits exactly
+    on its discontinuity (a float evaluation with an inexact rotation matrix may then legitimately differ)."""
+    nz, ny, nx = shape
+    mx = max(shape)
+    sx, sy = (nx - mx) // 2, (ny - mx) // 2
+    half = F(1, 2)
+    cen = [F(nz, 2) - half, F(ny, 2) - half, F(nx, 2) - half]
+    p = [F(nz, 2) - half + shift, F(sy + r), F(sx + c)]
+    pr = [a + b for a, b in zip(matvec(M, [a - b for a, b in zip(p, cen)]), cen)]
+    cands, degenerate = [], False
+    for o in itertools.product([0, 1], repeat=3):
+        for k in range(-w, w + 1):
+            ray = matvec(M, [F(k), F(0), F(0)])
+            q = [pr[i] + ray[i] + o[i] for i in range(3)]
+            if any(t.denominator == 1 for t in q):
+                degenerate = True
+            pt = tuple(math.floor(t) for t in q)
+            d = mat_t_vec(M, [pr[i] - pt[i] for i in range(3)])
+            if abs(d[1]) == 1 or abs(d[2]) == 1:
+                degenerate = True
+            wyx = max(1 - abs(d[1]), 0) * max(1 - abs(d[2]), 0)
+            wt = wyx * prof(d[0])
+            cands.append((pt, wt))
+
+    def inside(pt):
+        return 0 <= pt[0] < nz and 0 <= pt[1] < ny and 0 <= pt[2] < nx
+    npos = sum(1 for pt, wt in cands if wt > 0)
+    nin = sum(1 for pt, wt in cands if wt > 0 and inside(pt))
+    ent = {}
+    for pt, wt in cands:
+        if inside(pt):
+            ent[pt] = wt
+    if npos == 0:
+        return {}, 0, degenerate
+    s = sum(ent.values())
+    exact = isinstance(s, (int, F))
+    norm = (F(nin, npos) / (s + F(1, 10 ** 6))) if exact else (nin / npos / (float(s) + 1e-6))
+    return {pt: wt * norm for pt, wt in ent.items() if wt != 0}, npos, degenerate
+
+
+SHIFTS_INT = [F(0), F(1), F(-1), F(2), F(-2)]
+SHIFTS_HALF = [F(1, 2), F(-1, 2), F(3, 2)]
+SHIFTS_QUARTER = [F(1, 4), F(-1, 4), F(3, 4), F(-5, 4), F(3, 8)]
+
+
+def _rand_shape(rng, cubic=False):
+    if cubic:
+        n = rng.randint(2, 5)
+        return [n, n, n]
+    return rng.choice([[3, 4, 5], [5, 3, 4], [4, 4, 2], [2, 3, 6], [6, 5, 2], [4, 5, 3], [3, 3, 3], [4, 4, 4], [1, 4, 4], [5, 5, 1]])
+
+
+def _rect_profile(rng, tilted):
+    if tilted:  # thresholds that no exact distance (denominator 5^a 13^b 2^c) can hit
+        return {'kind': 'rect', 'h': [rng.choice([2, 4, 5, 7, 8, 10, 11]), 3]}
+    return rng.choice([{'kind': 'rect', 'h': [rng.randint(1, 8), 2]}, {'kind': 'rect', 'h': [rng.randint(1, 8), 2]},
+                       {'kind': 'smoothed0', 'fwhm': [rng.randint(1, 8), 1]}, {'kind': 'smoothed0', 'fwhm': [rng.randint(2, 12), 2]}])
+
+
+def _item(rng, cls):
+    if cls == 'identity':
+        M = [[1, 0, 0], [0, 1, 0], [0, 0, 1]]
+        shift = rng.choice(SHIFTS_INT + SHIFTS_HALF + SHIFTS_QUARTER)
+    elif cls == 'perm_exact':
+        M = rng.choice(PERM_EXACT)
+        shift = rng.choice(SHIFTS_INT + SHIFTS_HALF + SHIFTS_QUARTER)
+    elif cls == 'perm_inexact':
+        M = rng.choice(PERM_INEXACT)
+        shift = rng.choice(SHIFTS_INT)
+    else:
+        M = rng.choice(PYTH)
+        shift = rng.choice(SHIFTS_QUARTER)
+    return {'M': _mat_json(M), 'shift': [shift.numerator, shift.denominator], 'prof': _rect_profile(rng, cls == 'pyth')}
+
+
+def gen_slice(rng, tier):
+    cases = []
+    # corpus: the wide rectangular profile that was truncated before the repair of _find_width
+    cases.append({'shape': [9, 4, 4], 'cls': 'identity',
+                  'items': [{'M': _mat_json(PERMS[0] if _is_exact_perm(PERMS[0]) else PERM_EXACT[0]), 'shift': [0, 1], 'prof': {'kind': 'rect', 'h': [5, 2]}}]})
+    cases[0]['items'][0]['M'] = _mat_json([[1, 0, 0], [0, 1, 0], [0, 0, 1]])
+    n = 14 if tier == 'quick' else 220
+    for i in range(n):
+        cls = ['identity', 'perm_exact', 'pyth', 'perm_exact', 'pyth'][i % 5]
+        shape = _rand_shape(rng)
+        nb = 1 if rng.random() < 0.75 else rng.choice([2, 3])
+        cases.append({'shape': shape, 'cls': cls, 'items': [_item(rng, cls) for _ in range(nb)]})
+    return cases
+
+
+def _build_op(shape, items, dtype=torch.float64):
+    import numpy as np
+    from mrpro.data import Rotation, SpatialDimension
+    from mrpro.operators import SliceProjectionOp
+    mats = torch.tensor([[[float(F(*a)) for a in row] for row in it['M']] for it in items], dtype=dtype)
+    shifts = torch.tensor([float(F(*it['shift'])) for it in items], dtype=dtype)
+    profs = [_profile_impl(it['prof']) for it in items]
+    if len(items) == 1:
+        rot, sh, pf = Rotation.from_matrix(mats[0]), float(shifts[0]), profs[0]
+    else:
+        arr = np.empty(len(items), dtype=object)
+        for i, f in enumerate(profs):
+            arr[i] = f
+        rot, sh, pf = Rotation.from_matrix(mats), shifts, arr
+    return SliceProjectionOp(SpatialDimension(*shape), rot, sh, pf)
+
+
+def _dense_rows(op, shape, nitems):
+    mx = max(shape)
+    d = op.matrix.to_dense().to(torch.float64).reshape(nitems, mx * mx, -1)
+    rows = []
+    for b in range(nitems):
+        for r in range(mx * mx):
+            v = d[b, r]
+            if torch.isnan(v).any():
+                rows.append({'nan': True})
+            else:
+                nzi = torch.nonzero(v).flatten().tolist()
+                rows.append({'idx': nzi, 'val': [float(v[i]) for i in nzi]})
+    return rows
+
+
+def impl_slice(c):
+    shape, items = c['shape'], c['items']
+    op = _build_op(shape, items)
+    o = {'rows': _dense_rows(op, shape, len(items))}
+    mx = max(shape)
+    g = torch.Generator().manual_seed(prod(shape) + len(items))
+    vol = torch.randint(-5, 6, shape, generator=g).to(torch.float32)
+    (y,) = op(vol)
+    ref = (op.matrix.to_dense() @ vol.flatten()).reshape(y.shape)
+    o['fwd_shape'] = list(y.shape)
+    o['fwd_vs_matrix'] = float(torch.nan_to_num(y - ref, nan=0.0).abs().max())
+    (ones,) = op(torch.ones(shape))
+    o['const'] = ones.flatten().tolist()
+    return o
+
+
+def coq_slice(c):
+    nz, ny, nx = c['shape']
+    parts = []
+    for it in c['items']:
+        M = _mat_frac(it['M'])
+        mat = '(' + ', '.join('(' + ', '.join(qlit(a) for a in row) + ')' for row in M) + ')'
+        parts.append(f'run (mk {zlit(nz)} {zlit(ny)} {zlit(nx)} {mat} {qlit(F(*it["shift"]))} {_profile_coq(it["prof"])})')
+    return '[' + '; '.join(parts) + ']'
+
+
+def _twin_rows(c, it):
+    shape = c['shape']
+    M = _mat_frac(it['M'])
+    prof = _profile_q(it['prof'])
+    mx = max(shape)
+    w = twin_find_width(mx, prof)
+    return [twin_row(shape, M, F(*it['shift']), w, prof, r, cc) for r in range(mx) for cc in range(mx)], w
+
+
+def _row_dense(entries, shape):
+    nz, ny, nx = shape
+    return {(z * ny + y) * nx + x: float(v) for (z, y, x), v in entries.items()}
+
+
+def _cmp_row(got, want, tol):
+    """got: impl row {'idx','val'} ; want: {flat index: float}"""
+    if got.get('nan'):
+        return 'impl row is NaN'
+    g = dict(zip(got['idx'], got['val']))
+    for k in set(g) | set(want):
+        if abs(g.get(k, 0.0) - want.get(k, 0.0)) > tol:
+            return f'column {k}: impl {g.get(k, 0.0)} model {want.get(k, 0.0)}'
+    return None
+
+
+def cmp_slice(c, o, m, stats=None):
+    if isinstance(o, dict) and 'raises' in o:
+        return f'impl raises {o["raises"]}: {o.get("msg")}'
+    shape = c['shape']
+    mx = max(shape)
+    if o['fwd_shape'] != ([len(c['items'])] if len(c['items']) > 1 else [1]) + [1, mx, mx]:
+        return f'forward shape {o["fwd_shape"]}'
+    exact_cls = c['cls'] in ('identity', 'perm_exact')
+    k = 0
+    for it, mrows in zip(c['items'], m):
+        trows, _ = _twin_rows(c, it)
+        for (mnpos, ment), (tent, tnpos, deg) in zip(mrows, trows):
+            # (1) the python twin is the Coq model (exact)
+            mdict = {(e[0], e[1], e[2]): F(e[3][0], e[3][1]) for e in ment}  # Coq prints ((z, y, x), (n, d)) flat
+            if mnpos != tnpos or mdict != {kk: F(vv) for kk, vv in tent.items()}:
+                return f'python twin and Coq model differ at row {k}'
+            got = o['rows'][k]
+            k += 1
+            if deg and not exact_cls:
+                continue  # float evaluation may sit on the other side of a discontinuity
+            if mnpos == 0:
+                if not got.get('nan'):
+                    return f'row {k - 1}: model divides 0/0 (no positive candidate), impl row is finite'
+                continue
+            msg = _cmp_row(got, _row_dense(mdict, shape), 1e-5)
+            if msg:
+                return f'row {k - 1} (item {it["prof"]}, shift {it["shift"]}): {msg}'
+    return None
+
+
+def oracle_slice(c, o):
+    if isinstance(o, dict) and 'raises' in o:
+        return f'valid configuration rejected: {o["raises"]} {o.get("msg")}'
+    exact_cls = c['cls'] in ('identity', 'perm_exact')
+    for k, row in enumerate(o['rows']):
+        if row.get('nan'):
+            if exact_cls:
+                return f'row {k} of the projection matrix is NaN'
+            continue
+        if any(v < 0 for v in row['val']):
+            return f'row {k} has a negative weight'
+        sm = sum(row['val'])
+        if sm > 1 + 1e-4:
+            return f'row {k} sums to {sm} > 1'
+    if o['fwd_vs_matrix'] > 1e-4:
+        return f'forward differs from matrix @ volume by {o["fwd_vs_matrix"]:.3g}'
+    return None
+
+
+# ---- axis-aligned rotations and integer shifts: profile-weighted slicing computed independently -------------------
+def gen_axis(rng, tier):
+    cases = []
+    # corpus: rectangular profile of width 6 must give 6 equal taps (gave 4 of 0.25 before the repair of _find_width)
+    cases.append({'shape': [9, 5, 5], 'cls': 'identity', 'M': _mat_json([[1, 0, 0], [0, 1, 0], [0, 0, 1]]), 'shift': [1, 2],
+                  'prof': {'kind': 'rect', 'h': [3, 1]}, 'seed': 1})
+    cases.append({'shape': [9, 9, 9], 'cls': 'perm_exact', 'M': _mat_json(PERM_EXACT[5]), 'shift': [0, 1],
+                  'prof': {'kind': 'rect', 'h': [7, 2]}, 'seed': 2})
+    n = 24 if tier == 'quick' else 400
+    for i in range(n):
+        cls = ['identity', 'perm_exact', 'perm_exact', 'perm_inexact'][i % 4]
+        if cls == 'identity':
+            M, shape = [[1, 0, 0], [0, 1, 0], [0, 0, 1]], _rand_shape(rng)
+        else:
+            M = rng.choice(PERM_EXACT if cls == 'perm_exact' else PERM_INEXACT)
+            shape = _rand_shape(rng, cubic=True) if rng.random() < 0.6 else rng.choice([[5, 3, 7], [7, 5, 3], [3, 5, 5], [4, 6, 2], [9, 9, 9], [8, 8, 8]])
+        shift = rng.choice(SHIFTS_INT + SHIFTS_HALF) if cls != 'perm_inexact' else rng.choice(SHIFTS_INT)
+        r = rng.random()
+        if r < 0.6:
+            prof = {'kind': 'rect', 'h': [rng.randint(1, 8), 2]}
+        elif r < 0.75:
+            prof = {'kind': 'smoothed0', 'fwhm': [rng.randint(1, 8), 1]}
+        elif r < 0.9:
+            prof = {'kind': 'gauss', 'fwhm': [rng.choice([2, 3, 4, 6, 8]), rng.choice([1, 2])]}
+        else:
+            prof = {'kind': 'smoothed', 'fwhm': [rng.choice([2, 3, 4, 6]), 1], 'fg': [rng.choice([1, 2, 3]), 2]}
+        cases.append({'shape': shape, 'cls': cls, 'M': _mat_json(M), 'shift': [shift.numerator, shift.denominator], 'prof': prof,
+                      'seed': rng.randrange(10 ** 6)})
+    return cases
+
+
+def _analytic_volumes(shape, seed):
+    nz, ny, nx = shape
+    z, y, x = torch.meshgrid(torch.arange(nz), torch.arange(ny), torch.arange(nx), indexing='ij')
+    g = torch.Generator().manual_seed(seed)
+    vols = {'const': torch.ones(shape), 'ramp': (z + 2 * y + 3 * x).float(), 'quad': (z * z + y * y - x * x + z * x).float(),
+            'rand': torch.randint(-5, 6, shape, generator=g).float()}
+    d = torch.zeros(shape)
+    d[int(torch.randint(0, nz, (1,), generator=g)), int(torch.randint(0, ny, (1,), generator=g)), int(torch.randint(0, nx, (1,), generator=g))] = 1
+    vols['delta'] = d
+    return vols
+
+
+def impl_axis(c):
+    it = {'M': c['M'], 'shift': c['shift'], 'prof': c['prof']}
+    op = _build_op(c['shape'], [it])
+    out = {}
+    for name, v in _analytic_volumes(c['shape'], c['seed']).items():
+        (y,) = op(v)
+        out[name] = y.to(torch.float64).flatten().tolist()
+    return out
+
+
+def _axis_reference(c):
+    """profile-weighted slicing in plain python: for each slice pixel the list of (voxel, weight) along the normal through the
+    (integer) rotated in-plane position, over ALL voxels of the line; None for pixels that are not decided by the property text
+    (non-integer in-plane position, line partly outside, support not fully inside)"""
+    shape = c['shape']
+    M = _mat_frac(c['M'])
+    shift = F(*c['shift'])
+    prof = _profile_q(c['prof'])
+    nz, ny, nx = shape
+    mx = max(shape)
+    sx, sy = (nx - mx) // 2, (ny - mx) // 2
+    half = F(1, 2)
+    cen = [F(nz, 2) - half, F(ny, 2) - half, F(nx, 2) - half]
+    normal = matvec(M, [F(1), F(0), F(0)])       # +-e_a
+    a = [i for i in range(3) if normal[i] != 0][0]
+    sgn = normal[a]
+    exact = c['prof']['kind'] in ('rect', 'smoothed0')
+    refs = []
+    for r in range(mx):
+        for cc in range(mx):
+            p = [F(nz, 2) - half + shift, F(sy + r), F(sx + cc)]
+            pr = [u + v for u, v in zip(matvec(M, [u - v for u, v in zip(p, cen)]), cen)]
+            others = [i for i in range(3) if i != a]
+            if any(pr[i].denominator != 1 for i in others):
+                refs.append(None)
+                continue
+            if any(not (0 <= pr[i] < shape[i]) for i in others):
+                refs.append('outside')
+                continue
+            taps, ok = [], True
+            # the line of voxels through the in-plane position; d_z = sgn * (pr_a - j)
+            for j in range(-40, shape[a] + 40):
+                wgt = prof(sgn * (pr[a] - j))
+                significant = (wgt > 0) if exact else (wgt > 1e-4)
+                if 0 <= j < shape[a]:
+                    pt = [int(pr[0]) if a != 0 else 0, int(pr[1]) if a != 1 else 0, int(pr[2]) if a != 2 else 0]
+                    pt[a] = j
+                    if wgt > 0:
+                        taps.append((tuple(pt), float(wgt)))
+                elif significant:
+                    ok = False          # support leaves the volume: fraction-in-view semantics, not decided here
+            # the trilinear neighbours in the plane must be inside as well unless their weight is exactly 0 (it is: integer position)
+            refs.append(taps if ok and taps else None)
+    return refs
+
+
+def oracle_axis(c, o):
+    if isinstance(o, dict) and 'raises' in o:
+        return f'valid configuration rejected: {o["raises"]} {o.get("msg")}'
+    refs = _axis_reference(c)
+    vols = _analytic_volumes(c['shape'], c['seed'])
+    exact = c['prof']['kind'] in ('rect', 'smoothed0')
+    tol = 2e-5 if exact else 4e-2     # Gaussian tails beyond the 1 % / 99 % points are clipped by design
+    decided = 0
+    for name, v in vols.items():
+        scale = max(1.0, float(v.abs().max()))
+        for k, ref in enumerate(refs):
+            got = o[name][k]
+            if ref is None:
+                continue
+            if ref == 'outside':
+                want = 0.0
+            else:
+                tot = sum(wt for _, wt in ref)
+                want = sum(wt * float(v[pt]) for pt, wt in ref) / tot
+            decided += 1
+            if not (abs(got - want) <= tol * scale):
+                mx = max(c['shape'])
+                ntaps = len(ref) if isinstance(ref, list) else 0
+                return (f'volume "{name}", slice pixel ({k // mx},{k % mx}): got {got}, profile-weighted slicing over the whole '
+                        f'support ({ntaps} taps) gives {want}')
+    return None
+
+
+# ---- irrational profiles (Gaussian, erf-smoothed rectangle): float twin of the model ------------------------------
+def gen_gauss(rng, tier):
+    cases = []
+    n = 10 if tier == 'quick' else 150
+    for i in range(n):
+        cls = ['identity', 'perm_exact', 'pyth'][i % 3]
+        it = _item(rng, cls)
+        if rng.random() < 0.7:
+            it['prof'] = {'kind': 'gauss', 'fwhm': [rng.choice([2, 3, 4, 5, 6, 8, 3]), rng.choice([1, 2])]}
+        else:
+            it['prof'] = {'kind': 'smoothed', 'fwhm': [rng.choice([2, 3, 4, 6]), 1], 'fg': [rng.choice([1, 2, 3]), 2]}
+        cases.append({'shape': _rand_shape(rng), 'cls': cls, 'items': [it]})
+    return cases
+
+
+def impl_gauss(c):
+    op = _build_op(c['shape'], c['items'])
+    return {'rows': _dense_rows(op, c['shape'], len(c['items']))}
+
+
+def oracle_gauss(c, o):
+    """the matrix against the float twin (same geometry as the Coq model, validated against it on every rectangular case):
+    the weights follow the given profile over the support selected by _find_width"""
+    if isinstance(o, dict) and 'raises' in o:
+        return f'valid configuration rejected: {o["raises"]} {o.get("msg")}'
+    exact_cls = c['cls'] in ('identity', 'perm_exact')
+    it = c['items'][0]
+    trows, w = _twin_rows(c, it)
+    for k, (tent, tnpos, deg) in enumerate(trows):
+        if deg and not exact_cls:
+            continue
+        got = o['rows'][k]
+        if tnpos == 0:
+            continue
+        msg = _cmp_row(got, _row_dense(tent, c['shape']), 2e-5)
+        if msg:
+            return f'row {k} (width {w}): {msg} (weights do not follow the profile {it["prof"]})'
+        if any(v < 0 for v in got['val']):
+            return f'row {k} has a negative weight'
+    return None
+
+
+def _descr_slice(c):
+    d = {'cls': c['cls'], 'shape': c['shape']}
+    if 'prof' in c:
+        d['prof'] = c['prof']['kind']
+    return d
+
+
 FAMILIES = [
+    Family('slice_matrix', gen_slice, impl_slice, coq_slice, PRE_SLICE, cmp_slice, oracle_slice,
+           nontrivial=lambda c: True, descr=_descr_slice, shard=2, theorem='C20_slice_*'),
+    Family('slice_axis_aligned', gen_axis, impl_axis, None, '', None, oracle_axis, descr=_descr_slice,
+           theorem='C20_slice_identity_is_weighted_slicing (implementation-level reference in python)'),
+    Family('slice_irrational_profiles', gen_gauss, impl_gauss, None, '', None, oracle_gauss, descr=_descr_slice,
+           theorem='(float twin of Model/SliceProj.v)'),
     Family('grid_sampling', gen_grid, impl_grid, coq_grid, PRE_GRID, cmp_grid, oracle_grid, nontrivial=_nontrivial_grid,
            descr=lambda c: {k: c[k] for k in ('dim', 'mode', 'pad', 'ac', 'cplx', 'gb', 'xb', 'chans', 'shape')},
            shard=12, theorem='C20_grid_*'),
